@@ -93,3 +93,14 @@ func (t *MemTransport) SendDatagram(n *protocol.Node, b []byte) error {
 	}
 	return transport.ErrNoDirect
 }
+
+// Deliver hands a ready-made delegate to a transport's accept channel (C42).
+func (n *StreamNet) Deliver(t *MemTransport, d *transport.StreamDelegate) { t.accept <- d }
+
+// Alias makes a transport reachable under a second address (a tunnel client is
+// dialled by the identity the server derived from its certificate).
+func (n *StreamNet) Alias(addr string, t *MemTransport) {
+	n.mu.Lock()
+	n.peers[addr] = t
+	n.mu.Unlock()
+}
